@@ -632,3 +632,30 @@ class time_limit:
         signal.setitimer(signal.ITIMER_REAL, 0)
         signal.signal(signal.SIGALRM, self._old)
         return False
+
+
+# ----------------------------------------------------------------------------
+# Apalache (symbolic, unbounded integers)
+# ----------------------------------------------------------------------------
+
+def apalache(ctx, name, module, obligations, timeout=400):
+    """obligations: list of (label, [apalache args]). Returns True iff all discharged; a refuted obligation is a machinery error
+    (the specification itself is wrong); a timeout only weakens the evidence (recorded)."""
+    out = os.path.join(ctx.workdir, "apa_" + name)
+    res = []
+    for label, args in obligations:
+        t0 = time.time()
+        try:
+            pr = subprocess.run(["apalache-mc", "check"] + list(args) + ["--out-dir=" + out, os.path.join(SPEC, module + ".tla")],
+                                capture_output=True, text=True, timeout=timeout, cwd=ctx.workdir)
+            ok = "EXITCODE: OK" in pr.stdout and "NoError" in pr.stdout
+            bad = "EXITCODE: ERROR" in pr.stdout and "violat" in pr.stdout.lower()
+        except subprocess.TimeoutExpired:
+            ok, bad = False, False
+        res.append({"obligation": label, "discharged": ok, "wall_s": round(time.time() - t0, 1)})
+        if bad:
+            raise MachineryError("Apalache refutes %s (%s): the specification is wrong" % (module, label))
+    shutil.rmtree(out, ignore_errors=True)
+    ctx.stage("e2.apalache." + name, kind="apalache (unbounded integers)", module=module, obligations=res)
+    ctx.notes.setdefault("apalache_obligations", []).extend(res)
+    return all(r["discharged"] for r in res)
